@@ -6,7 +6,7 @@ recursive template and the `__RECINT_LIMB_SIZE`, `__RECINT_LIMB_SIZE+1` speciali
 `Bn n = 2^(2^(6+n))`, `val` the represented number, `WF` "every limb is below 2^64".  Every theorem is for **every**
 level `n` (no bound on K) and all well-formed operands; carries and borrows are exact (`c2n` reads a `bool` as 0/1).
 -/
-import GivaroModel.Lemmas.RecIntBits
+import GivaroModel.Lemmas.RecIntDiv2
 namespace Givaro.Props.C06
 open Givaro.Model.RecInt
 
@@ -144,6 +144,125 @@ theorem not_exact {n : Nat} (a : RU n) (ha : WF a) : WF (not_ a) ∧ val (not_ a
 theorem neg_exact {n : Nat} (a : RU n) (ha : WF a) : WF (neg a) ∧ val (neg a) = (Bn n - val a) % Bn n := neg_ok a ha
 
 example : ∃ a : RU 2, WF a ∧ val (neg a) ≠ 0 := ⟨ones 2, by simp [ones, WF, B64], by decide⟩
+
+/-! ### rumul.h, ruaddmul.h: the full multiplication family, for any value `t` of `__RECINT_THRESHOLD_KARA` -/
+/-- `lmul_naive(ah, al, b, c)`: `ah·2^bits + al = b·c` exactly (the model returns the pair as `node al ah`) -/
+theorem lmul_naive_exact (t : Nat) {n : Nat} (b c : RU n) (hb : WF b) (hc : WF c) :
+    WF (lmul_naive t b c) ∧ val (hi (lmul_naive t b c)) * Bn n + val (lo (lmul_naive t b c)) = val b * val c := by
+  have h := (mul_family t n).1 b c hb hc
+  refine ⟨h.1, ?_⟩
+  rw [← h.2, val_lo_hi (lmul_naive t b c)]; ring
+
+/-- `lmul_kara(ah, al, b, c)`: exact; this includes the obligation that the middle-term correction
+    `r = (rb&rc)+rt1+rt2-rt3-rt4`, which the code stores in a `bool`, is 0 or 1 (`lmul_kara_correction_exact`) and that none of
+    the final carry propagations into `ah` wraps -/
+theorem lmul_kara_exact (t : Nat) {n : Nat} (b c : RU n) (hb : WF b) (hc : WF c) :
+    WF (lmul_kara t b c) ∧ val (hi (lmul_kara t b c)) * Bn n + val (lo (lmul_kara t b c)) = val b * val c := by
+  have h := (mul_family t n).2.1 b c hb hc
+  refine ⟨h.1, ?_⟩
+  rw [← h.2, val_lo_hi (lmul_kara t b c)]; ring
+
+/-- the content of storing `(rb&rc)+rt1+rt2-rt3-rt4` in a `bool`: whenever the five flags satisfy the bookkeeping equation of
+    Karatsuba's middle term (`D4 < 2^bits` the reduced middle word, `mid < 2·2^bits` the true middle term), the integer is 0 or 1
+    and the bool read back as a number is that integer -/
+theorem lmul_kara_correction_exact (B2 D4 mid : Nat) (rbc rt1 rt2 rt3 rt4 : Bool) (hD : D4 < B2) (hm : mid < 2 * B2)
+    (E : D4 + (c2n rbc + c2n rt1 + c2n rt2) * B2 = mid + (c2n rt3 + c2n rt4) * B2) :
+    ((c2n rbc + c2n rt1 + c2n rt2 : Nat) : Int) - (c2n rt3 + c2n rt4 : Nat) ∈ [0, 1] ∧
+    D4 + c2n (decide (((if rbc = true then 1 else 0) + (if rt1 = true then 1 else 0) + (if rt2 = true then 1 else 0)
+          - (if rt3 = true then 1 else 0) - (if rt4 = true then 1 else 0) : Int) ≠ 0)) * B2 = mid := by
+  refine ⟨?_, kara_r B2 D4 mid rbc rt1 rt2 rt3 rt4 hD hm E⟩
+  cases rbc <;> cases rt1 <;> cases rt2 <;> cases rt3 <;> cases rt4 <;> simp [c2n] at E ⊢ <;> omega
+
+/-- `lmul(ah, al, b, c)` (dispatch on the threshold): exact for every threshold -/
+theorem lmul_exact (t : Nat) {n : Nat} (b c : RU n) (hb : WF b) (hc : WF c) :
+    WF (lmul t b c) ∧ val (hi (lmul t b c)) * Bn n + val (lo (lmul t b c)) = val b * val c := by
+  have h := lmul_ok t b c hb hc
+  refine ⟨h.1, ?_⟩
+  rw [← h.2, val_lo_hi (lmul t b c)]; ring
+
+/-- `laddmul(r, ah, al, b, c, d)` with `d : ruint<K>`: `(ah|al) + r·2^(2·bits) = b·c + d` (so `r` is never set) -/
+theorem laddmul_exact (t : Nat) {n : Nat} (b c d : RU n) (hb : WF b) (hc : WF c) (hd : WF d) :
+    WF (laddmul1 t b c d).1 ∧ val (laddmul1 t b c d).1 + c2n (laddmul1 t b c d).2 * Bn (n+1) = val b * val c + val d ∧
+    (laddmul1 t b c d).2 = false := by
+  have h := (mul_family t n).2.2.2.1 b c d hb hc hd
+  refine ⟨h.1, h.2, ?_⟩
+  have hlt : val b * val c + val d < Bn (n+1) := by rw [Bn_succ]; exact mul_add_lt_sq (val_lt b hb) (val_lt c hc) (val_lt d hd)
+  have := (no_carry h.2 hlt).2
+  cases hr : (laddmul1 t b c d).2
+  · rfl
+  · rw [hr] at this; simp at this
+
+/-- `laddmul(ah, al, b, c, d)` with `d : ruint<K>`, the carry-less overload: `(ah|al) = b·c + d` -/
+theorem laddmulNC_exact (t : Nat) {n : Nat} (b c d : RU n) (hb : WF b) (hc : WF c) (hd : WF d) :
+    WF (laddmul1NC t b c d) ∧ val (laddmul1NC t b c d) = val b * val c + val d :=
+  (mul_family t n).2.2.2.2.1 b c d hb hc hd
+
+/-- `laddmul(r, ah, al, b, c, d)` with `d : ruint<K+1>`: value and the exact carry -/
+theorem laddmul3_exact (t : Nat) {n : Nat} (b c : RU n) (d : RU (n+1)) (hb : WF b) (hc : WF c) (hd : WF d) :
+    WF (laddmul3 t b c d).1 ∧ val (laddmul3 t b c d).1 = (val b * val c + val d) % Bn (n+1) ∧
+    c2n (laddmul3 t b c d).2 = (val b * val c + val d) / Bn (n+1) := by
+  have h := (mul_family t n).2.2.2.2.2 b c d hb hc hd
+  exact ⟨h.1, h.exact⟩
+
+/-- `mul(a, b, c)`, `a *= c`, `b * c`: the product modulo `2^bits` -/
+theorem mul_low_exact (t : Nat) {n : Nat} (b c : RU n) (hb : WF b) (hc : WF c) :
+    WF (mul t b c) ∧ val (mul t b c) = (val b * val c) % Bn n := mul_ok t b c hb hc
+
+/-- `addmul(a, b, c)`: `a = (a + b·c) mod 2^bits` -/
+theorem addmul_exact (t : Nat) {n : Nat} (a b c : RU n) (ha : WF a) (hb : WF b) (hc : WF c) :
+    WF (addmul t a b c) ∧ val (addmul t a b c) = (val a + val b * val c) % Bn n := addmul_ok t a b c ha hb hc
+
+/-- `lsquare(a, b)`: the full double-width square -/
+theorem lsquare_exact (t : Nat) {n : Nat} (b : RU n) (hb : WF b) :
+    WF (lsquare t b) ∧ val (lsquare t b) = val b * val b := lsquare_ok t b hb
+
+/-- `square(a, b)`: the square modulo `2^bits` -/
+theorem square_exact (t : Nat) {n : Nat} (b : RU n) (hb : WF b) :
+    WF (square t b) ∧ val (square t b) = (val b * val b) % Bn n := square_ok t b hb
+
+-- non-vacuity of the hypotheses of the multiplication theorems (the model functions are defined by well-founded recursion
+-- and do not reduce in the kernel, so the witnesses are only shown to be well-formed; the driver executes them)
+example : ∃ (b c : RU 2) (d : RU 3), WF b ∧ WF c ∧ WF d :=
+  ⟨ones 2, ones 2, ones 3, by simp [ones, WF, B64], by simp [ones, WF, B64], by simp [ones, WF, B64]⟩
+
+/-! ### rudiv.h: division by a normalised divisor (both quotient corrections) -/
+/- Full statements (kept visible):
+   div_3_2_exact : ∀ t n (a2 a1 a0 b1 b0 : RU n), WF … → Bn n ≤ 2 * val b1 → val a2 * Bn n + val a1 < val b1 * Bn n + val b0 →
+       (val a2 * Bn n + val a1) * Bn n + val a0 = val q * (val b1 * Bn n + val b0) + (val r1 * Bn n + val r0) ∧ val r1 * Bn n + val r0 < val b1 * Bn n + val b0
+   div_2_1_exact : ∀ t n (ah al b : RU n), WF … → Bn n ≤ 2 * val b → val ah < val b → val ah * Bn n + val al = val q * val b + val r ∧ val r < val b
+   Proved below for every level under the single hypothesis `Div32Limb t` (the `__RECINT_LIMB_SIZE` specialisation of div_3_2, whose
+   second correction is decided by `r >= b`, satisfies the same statement at level 0); what is missing is the kernel-checked proof of
+   that limb-level fact.  The generic template (every level >= 1: estimate by div_2_1 or B-1, first correction, second correction
+   decided by the carry) and div_2_1 (limb base case and recursive step) are proved unconditionally. -/
+
+/-- the generic `div_3_2` template at level `m+1` is exact whenever `div_2_1` is at that level: quotient estimate too large by
+    0, 1 or 2, both corrections, `a = q·b + r ∧ r < b` -/
+theorem div_3_2_generic_exact (t m : Nat)
+    (IH21 : ∀ ah al b : RU (m+1), WF ah → WF al → WF b → Bn (m+1) ≤ 2 * val b → val ah < val b → Div21Ok (div_2_1 t ah al b) ah al b)
+    (a2 a1 a0 b1 b0 : RU (m+1)) (ha2 : WF a2) (ha1 : WF a1) (ha0 : WF a0) (hb1 : WF b1) (hb0 : WF b0)
+    (hn : Bn (m+1) ≤ 2 * val b1) (hlt : val a2 * Bn (m+1) + val a1 < val b1 * Bn (m+1) + val b0) :
+    Div32Ok (div_3_2 t a2 a1 a0 b1 b0) a2 a1 a0 b1 b0 :=
+  div_3_2_step t m IH21 a2 a1 a0 b1 b0 ha2 ha1 ha0 hb1 hb0 hn hlt
+
+/-- `div_2_1` at the limb level (`recint_udiv_qrnnd` contract) -/
+theorem div_2_1_limb_exact (t : Nat) (ah al b : RU 0) (hah : WF ah) (hal : WF al) (hb : WF b) (hlt : val ah < val b) :
+    Div21Ok (div_2_1 t ah al b) ah al b := div_2_1_zero t ah al b hah hal hb hlt
+
+/-- `div_3_2` at every level, given the limb-level specialisation -/
+theorem div_3_2_exact_partial (t : Nat) (H0 : Div32Limb t) {n : Nat} (a2 a1 a0 b1 b0 : RU n)
+    (ha2 : WF a2) (ha1 : WF a1) (ha0 : WF a0) (hb1 : WF b1) (hb0 : WF b0)
+    (hn : Bn n ≤ 2 * val b1) (hlt : val a2 * Bn n + val a1 < val b1 * Bn n + val b0) :
+    Div32Ok (div_3_2 t a2 a1 a0 b1 b0) a2 a1 a0 b1 b0 :=
+  (div_family_of_limb t H0 n).2 a2 a1 a0 b1 b0 ha2 ha1 ha0 hb1 hb0 hn hlt
+
+/-- `div_2_1` at every level, given the limb-level specialisation of `div_3_2` -/
+theorem div_2_1_exact_partial (t : Nat) (H0 : Div32Limb t) {n : Nat} (ah al b : RU n) (hah : WF ah) (hal : WF al) (hb : WF b)
+    (hn : Bn n ≤ 2 * val b) (hlt : val ah < val b) : Div21Ok (div_2_1 t ah al b) ah al b :=
+  (div_family_of_limb t H0 n).1 ah al b hah hal hb hn hlt
+
+example : ∃ (ah al b : RU 1), WF ah ∧ WF al ∧ WF b ∧ Bn 1 ≤ 2 * val b ∧ val ah < val b :=
+  ⟨zero 1, zero 1, ones 1, by simp [zero, WF, B64], by simp [zero, WF, B64], by simp [ones, WF, B64],
+   by simp [ones, val, Bn, bits, B64], by simp [ones, zero, val, Bn, bits, B64]⟩
 
 -- non-vacuity: well-formed operands exist at a recursive level, and the carries really occur
 example : ∃ b c : RU 2, WF b ∧ WF c ∧ (add b c).2 = true :=
